@@ -41,14 +41,18 @@ HistClauses(r) == << <<"InstancesShareNoState", r.ok /\ r.exc = "" /\ r.nev >= 3
 (*             measured value from the documented value; where that exceeds the tolerance    *)
 (*             the distance from the RANGE of the documented pdf over x -+ 8 ulp, i.e. over   *)
 (*             the arguments a double cannot tell apart - conditioning near a singular        *)
-(*             boundary such as beta(b < 1) at loc + scale is not an error of the code);      *)
-(*             at a boundary point of the support the value 0 (the outer limit) is a version  *)
-(*             of the density as well                                                          *)
-(*   fcls = 1  the documented density is unbounded at this point (boundary, shape < 1): a      *)
-(*             density is fixed only up to null sets and cdf has no derivative there, so any   *)
-(*             non-negative value is accepted (virocon's exponentiated Weibull returns 0,      *)
-(*             scipy's Weibull +inf)                                                           *)
-(*   fcls = 2  NaN, or non-finite where the documented value is finite: rejected               *)
+(*             boundary such as beta(b < 1) at loc + scale is not an error of the code)       *)
+(*   fcls = 1  documented and measured density both +inf                                       *)
+(*   fcls = 2  NaN, or non-finite where the documented value is finite (or vice versa)         *)
+(* Grid points that ARE a boundary of the support (x = 0, gamma, loc, loc + scale when it is a  *)
+(* double) are judged separately: edgeok = the measured pdf is the value of the documented      *)
+(* formula there - its limit from inside: c / alpha-type constant when the exponent of x is 0   *)
+(* (Weibull beta = 1, exponentiated Weibull beta * delta = 1, generalised gamma c * m = 1, gamma *)
+(* a = 1), +inf when it is negative, 0 when it is positive - to 1e-8 relative; edgesame = the    *)
+(* same value, bit for bit, when the parameters are passed explicitly (scalars by keyword and    *)
+(* positionally, arrays with x as a list).  ("x over the support incl. boundary"; an earlier      *)
+(* version accepted 0 there as another version of the density - that hid an exponentiated        *)
+(* Weibull pdf(0) that was always 0.)                                                            *)
 (* rtx / rtp are the round-trip errors in excess of the representation error of the            *)
 (* intermediate double (8 ulp of G(p) times the pdf, resp. 8 ulp of F(x) over the pdf).        *)
 (* Probability arrays (index j, p from 1e-16 to 1 - 1e-12): ptail (p < 1e-6 or p > 1 - 1e-6), *)
@@ -85,6 +89,7 @@ LawsClauses(r) ==
     <<"RoundTripXFarTail", \A i \in 1..NG(r) : r.rtxin[i] /\ r.rtxtail[i] => r.rtx[i] <= RoundTripTolE12>>,
     <<"RoundTripP", \A j \in 1..Len(r.rtp) : r.pin[j] /\ ~r.ptail[j] => r.rtp[j] <= RoundTripTolE12>>,
     <<"RoundTripPFarTail", \A j \in 1..Len(r.rtp) : r.pin[j] /\ r.ptail[j] => r.rtp[j] <= RoundTripTolE12>>,
+    <<"PdfAtSupportBoundary", r.edgeok /\ r.edgesame>>,
     <<"PdfIsDerivative", PdfIsDerivative(r.dlo, r.dmid, r.dhi, r.dslope, 2)>>,
     <<"ArrayLikeKindsAgree", r.kexc = "" /\ r.kshape /\ r.krel <= KindsTolE15>>,
     <<"NormFitMoments", r.fam = "NormFit" => r.momrel <= MomentTolE12>>
